@@ -147,7 +147,25 @@ def shard(ctx, n):
                      nested_pow)
 
     @st.composite
+    def twin_groups(draw):
+        """Two nodes with the same *set* of constant operands that differ in operator or multiplicity, each next
+        to a non-constant operand: (a + b + y) * (a*b*z), a*a*b*y + a*b*z, ..."""
+        consts = draw(st.lists(st.sampled_from(["a", "b", "c", "x"]), min_size=2, max_size=3, unique=True))
+        fr = draw(st.lists(st.sampled_from(["y", "z", "<dt>"]), min_size=2, max_size=2, unique=True))
+        cv = [["var", n] for n in consts]
+        op1, op2 = draw(st.sampled_from([("sum", "prod"), ("prod", "sum"), ("prod", "prod"), ("sum", "sum")]))
+        g1 = [op1] + cv + [["var", fr[0]]]
+        second = list(cv)
+        if op1 == op2:
+            second = second + [second[0]]                 # same set, other multiplicity
+        g2 = [op2] + list(draw(st.permutations(second))) + [["var", fr[1]]]
+        top = draw(st.sampled_from(["sum", "prod"]))
+        return {"expr": [top, g1, g2], "free": sorted(fr), "kw_reverse": False}
+
+    @st.composite
     def cases(draw):
+        if draw(st.integers(0, 19)) == 0:
+            return draw(twin_groups())
         e = draw(expr)
         names = sorted(T.variables(e, include_functions=True))
         if names:
